@@ -189,6 +189,14 @@ Theorem c15_reuse_after_wrap :
 Proof. exact reuse_happens. Qed.
 Print Assumptions c15_reuse_after_wrap.
 
+(* what must NOT happen: a time-out before the time-to-live is over.  A call is on the expired list
+   (the only place ReapTimeout completes from) only if a sweep of this very history ran at an instant
+   after the call's deadline *)
+Theorem c15_timeout_only_when_overdue : forall c0 ops c,
+  In c (expired (fst (run (init c0) ops))) -> swept_overdue ops c.
+Proof. exact timeout_only_when_overdue. Qed.
+Print Assumptions c15_timeout_only_when_overdue.
+
 (* over any history no call is completed twice *)
 Theorem c15_at_most_once : forall c0 ops, u16 c0 ->
   NoDup (map kcid (completions (snd (run (init c0) ops)))).
@@ -218,6 +226,12 @@ Example c15_example_two_phase :
   completions (snd (run (init 0) ex_ops2)) = [mkcomp 0 1 0 7] /\
   map ores (snd (run (init 0) ex_ops2)) = [0; 0; 1; 0; 0; 0].
 Proof. vm_compute. split; reflexivity. Qed.
+
+(* in the example history call 1 (deadline 60000) is on the expired list after the sweep at 61000 *)
+Example c15_example_overdue :
+  expired (fst (run (init 65534) (firstn 5 ex_ops))) = [mkctx 1 false 60000] /\
+  swept_overdue (firstn 5 ex_ops) (mkctx 1 false 60000).
+Proof. split; [vm_compute; reflexivity|]. exists 61000. split; [simpl; tauto | reflexivity]. Qed.
 
 Example c15_example_reachable : reachable (fst (run (init 65534) ex_ops)).
 Proof. exists 65534, ex_ops. split; [unfold u16; split; [discriminate | reflexivity] | reflexivity]. Qed.
